@@ -58,8 +58,8 @@ theorem C10_block_tree_chars (tab : Nat) (text : Str) {root : Node} {refs : Bloc
   let p : Char → Bool := fun c => text.contains c || c == ' ' || c == '\n'
   let q : Char → Bool := fun c => p c || "&amp;ltgNone".toList.contains c
   have hpq : Blk.CharDom p q :=
-    ⟨fun c hc => by simp only [q, hc, Bool.true_or], by simp [p], by simp [p],
-      fun c hc => by simp only [q, Bool.or_eq_true]; right; simpa using hc⟩
+    Blk.CharDom.ofLits (fun c hc => by simp only [q, hc, Bool.true_or]) (by simp [p]) (by simp [p])
+      (fun c hc => by simp only [q, Bool.or_eq_true]; right; simpa using hc)
   have hp : Blk.AllC p text := fun c hc => by simp [p, hc]
   obtain ⟨h1, -, -⟩ := Blk.parseDocument_chars hpq tab text hp hr
   refine Node.Forall.mono ?_ root h1
